@@ -12,9 +12,9 @@ VERIF = api.VERIF
 PROP_MODULES = {
     "C01": ["contracts.c01", "contracts.c01b", "contracts.c01_bounded", "contracts.c15", "contracts.c18", "contracts.c02"],
     "C02": ["contracts.c02", "contracts.c02_bounded", "contracts.c15"],
-    "C03": ["contracts.c03", "contracts.c03_bounded", "contracts.c06"],
+    "C03": ["contracts.c03", "contracts.c03_bounded", "contracts.c06", "contracts.c05c"],
     "C04": ["contracts.c04", "contracts.c05", "contracts.c03"],
-    "C05": ["contracts.c05", "contracts.c05_bounded"],
+    "C05": ["contracts.c05", "contracts.c05c", "contracts.c05_bounded"],
     "C11": ["contracts.c11", "contracts.c11_bounded", "contracts.c02"],
     "C19": ["contracts.c19", "contracts.c19_bounded", "contracts.c02", "contracts.c15"],
     "C12": ["contracts.c12", "contracts.c12b", "contracts.c12c", "contracts.c12_bounded", "contracts.c10", "contracts.c13c"],
@@ -27,7 +27,7 @@ PROP_MODULES = {
     "C16": ["contracts.c16", "contracts.c16_bounded", "contracts.c13c"],
     "C09": ["contracts.c09", "contracts.c09_bounded", "contracts.c08"],
     "C10": ["contracts.c10", "contracts.c10b", "contracts.c10_bounded"],
-    "C17": ["contracts.c17", "contracts.c05", "contracts.c17_bounded"],
+    "C17": ["contracts.c17", "contracts.c05", "contracts.c05c", "contracts.c17_bounded"],
     "C18": ["contracts.c18", "contracts.c18_bounded"],
 }
 
